@@ -482,9 +482,36 @@ pub fn random_program<R: RngCore>(rng: &mut R, cfg: &GenCfg, target_rows: usize)
 
 /// Continue a builder (which may already hold ops) up to `target_rows`.
 pub fn random_program_from<R: RngCore>(mut b: Builder, rng: &mut R, cfg: &GenCfg, target_rows: usize) -> Builder {
+    // a fresh program with the room starts with one cheap member of every
+    // other enabled family, so family coverage never depends on the draw
+    if b.prog.ops.is_empty() && target_rows >= 100 {
+        if cfg.range {
+            let r = b.witness(BlsScalar::from(rng.next_u64() & 0xff));
+            b.push(Op::RangeBits(8, r)).unwrap();
+        }
+        // (the logic components truncate both inputs first: ~170 rows)
+        if cfg.logic && target_rows >= 400 {
+            let x = b.witness(BlsScalar::from(rng.next_u64()));
+            let y = b.witness(BlsScalar::from(rng.next_u64()));
+            b.push(if rng.next_u32() & 1 == 0 { Op::LogicAnd(4, x, y) } else { Op::LogicXor(4, x, y) }).unwrap();
+        }
+        if cfg.ecc_var {
+            let i = b.point_input(GENERATOR_EXTENDED * JubJubScalar::from(rng.next_u64()));
+            b.push(Op::Point(i)).unwrap();
+            let p = b.last_p();
+            b.push(Op::AddPoint(p, p)).unwrap();
+            let q = b.last_p();
+            b.sub_points.push(p);
+            b.sub_points.push(q);
+        }
+        if cfg.public {
+            let i = b.scalar_input(rand_scalar(rng));
+            b.push(Op::Public(i)).unwrap();
+        }
+    }
     // a program that is allowed the heavy components and has the room always
     // starts with one fixed-base multiplication, so every gate family occurs
-    if cfg.heavy && cfg.ecc_fixed && target_rows >= 450 {
+    if cfg.heavy && cfg.ecc_fixed && target_rows >= 450 && target_rows - b.rows() >= 360 {
         let s = JubJubScalar::from(rng.next_u64());
         let reg = b.witness(BlsScalar::from(s));
         b.push(Op::MulGenerator(reg, GENERATOR_EXTENDED)).unwrap();
